@@ -87,6 +87,9 @@ class RecSession:
         self._r("onOpen")
         if self.maker.plan.get("open_raise"):
             raise RuntimeError("session code failed in onOpen")
+        if self.maker.plan.get("open_send") is not None:
+            # a handler that talks first (e.g. a router-side session greeting its peer)
+            transport.send(self.maker.plan["open_send"])
 
     def onMessage(self, msg):
         n = self.nmsg
